@@ -101,6 +101,9 @@ def alphabet(F, rng):
     add(1, 'read_inline', [ni])
     add(5, 'read_zslice', [nz])
     # a slice of lines through the emulator (judged on its first line)
+    # (what a slice with negative bounds or a negative step MEANS is C13's subject; here it must only mean the same as on a fresh emulator)
+    add(3, 'read_inline_number', [ilv[min(1, ni - 1)]])        # by line number through the accessor's own reader (what f.iline[n] does)
+    add(4, 'read_crossline_number', [xlv[min(2, nx - 1)]])
     if ni >= 3:
         A.append({'r': 3, 'op': 'read_inline', 'a': [ni - 2], 'slice': True})
     if nx >= 3:
@@ -191,17 +194,26 @@ def do_call(objs, fc, c, ans):
             except BaseException as e:
                 return False, f'raise {type(e).__name__}'
             return bool(np.array_equal(got, exp)), f'array first={np.asarray(got).ravel()[:4].tolist()}'
-        if c.get('slice'):          # accessor[n : n + 2 steps : step] -> lines n, n + 1 (segyio's slice by line number); the first one is compared
-            emu = objs.obj['emu']
-            ax = np.asarray(emu.ilines if r == 3 else emu.xlines)
-            d = int(ax[1] - ax[0])
-            try:
-                got = [np.array(x, copy=True) for x in o[int(ax[a[0]]):int(ax[a[0]]) + 2 * d:d]]
-                out = ('value', got[0]) if len(got) == 2 else ('raise', 'WrongLength', ['WrongLength'])
-            except BaseException as e:
-                if isinstance(e, (KeyboardInterrupt, SystemExit, MemoryError)):
-                    raise
-                out = ('raise', type(e).__name__, [k.__name__ for k in type(e).__mro__])
+        if c.get('slice'):          # accessor[n : n + 2 steps : step]: the same expression on a FRESH emulator is the reference
+            import seismic_zfp
+
+            def expr(em):
+                ax = np.asarray(fc_axes[0] if r == 3 else fc_axes[1])
+                d = int(ax[1] - ax[0])
+                acc = em.iline if r == 3 else em.xline
+                try:
+                    return [np.array(x, copy=True) for x in acc[int(ax[a[0]]):int(ax[a[0]]) + 2 * d:d]]
+                except BaseException as e:
+                    if isinstance(e, (KeyboardInterrupt, SystemExit, MemoryError)):
+                        raise
+                    return type(e).__name__
+            with seismic_zfp.open(fc.path) as fresh:
+                fc_axes = (np.array(fresh.ilines), np.array(fresh.xlines))
+                want = expr(fresh)
+            got = expr(objs.obj['emu'])
+            same = (isinstance(got, str) and got == want) or (isinstance(got, list) and isinstance(want, list) and len(got) == len(want)
+                                                                and all(np.array_equal(g, w) for g, w in zip(got, want)))
+            return same, f'slice -> {got if isinstance(got, str) else len(got)} line(s), a fresh emulator gives {want if isinstance(want, str) else len(want)}'
         else:
             out = readcalls.invoke(o, op, a)
     grid = [x for x in ans['alts'] if x['kind'] == 'header']
@@ -308,7 +320,7 @@ def run(run):
         A = alphabet(fc.F, rng)
         answers = session.eval_calls([fc], [(0, c['op'] if c['op'] not in ('close', 'get_tracefield_values') else 'read_volume',
                                              c['a'] if c['op'] not in ('close', 'get_tracefield_values') else []) for c in A], run)
-        for K in (1, 2, None):
+        for K in ((1, 2, None) if (not quick or getattr(fc, 'sibling', None) is None) else (1, None)):
             jobs.append((fc, A, answers, K))
 
     def one(job):
